@@ -77,7 +77,7 @@ class C06(Prop):
     ASSUMPTIONS = ["module ports are based at 0, ranges are downto, assign sides have equal width",
                    "a never-declared module is used either by name everywhere or by position everywhere",
                    "the order of a definition's ports is not compared (only used through positional maps)"]
-    N = {"quick": 2400, "thorough": 30000}
+    N = {"quick": 7200, "thorough": 60000}
     CASE_TIMEOUT_S = 60
 
     def strategy(self, tier):
